@@ -502,7 +502,8 @@ pixman_composite_trapezoids (pixman_op_t		op,
     if (op == PIXMAN_OP_ADD &&
 	(src->common.flags & FAST_PATH_IS_OPAQUE)		&&
 	(mask_format == dst->common.extended_format_code)	&&
-	!(dst->common.have_clip_region))
+	!(dst->common.have_clip_region)				&&
+	!(src->common.clip_sources && src->common.client_clip))
     {
 	for (i = 0; i < n_traps; ++i)
 	{
